@@ -52,6 +52,24 @@ func c05Identify(off time.Duration, n int) (k int, ok bool) {
 	return 0, false
 }
 
+// c05IdentifyHalf attributes one side of a sample (server timestamp minus client timestamp)
+// to the genuine reply (-1) or to the k-th crafted datagram, and returns the tag it carries.
+func c05IdentifyHalf(d time.Duration, n int) (k int, shift time.Duration, ok bool) {
+	near := func(a, b time.Duration) bool { x := a - b; return x > -20*time.Second && x < 20*time.Second }
+	if near(d, 0) {
+		return -1, 0, true
+	}
+	for k = 0; k < n; k++ {
+		if near(d, c05Shift(k)) {
+			return k, c05Shift(k), true
+		}
+		if near(d, c05Shift(k)+c05FarShift) {
+			return k, c05Shift(k) + c05FarShift, true
+		}
+	}
+	return 0, 0, false
+}
+
 type c05Req struct {
 	f           peer.NTPFields
 	raw         []byte
@@ -381,6 +399,7 @@ var c05Spy *c03Spy
 
 func c05Leg(r *ev.Run, name string, p *c05Peer, muts []c05Mut, measure func(ctx context.Context) (time.Time, time.Duration, error), rng *rand.Rand, nScripts int) {
 	successGenuine, calls := 0, 0
+	prevShift := new(time.Duration) // tag of the datagram the client accepted last (0 = a genuine reply)
 	// prime (and count) with genuine-only scripts
 	runScript := func(id string, script []c05Mut) {
 		if r.Only() != "" && r.Only() != id {
@@ -419,17 +438,40 @@ func c05Leg(r *ev.Run, name string, p *c05Peer, muts []c05Mut, measure func(ctx 
 			r.Violation(name+"|panic|"+scriptClass(script), id, w)
 			return
 		}
-		if err != nil && c05Spy != nil {
+		spied := 0
+		if c05Spy != nil {
+			// every sample the client accepted went through the spy filter with its four timestamps:
+			// (t2 - t3) names the datagram whose transmit timestamp was used, (t1 - t0) must carry the
+			// tag of the same datagram (basic-form reply) or of the datagram accepted before it
+			// (interleaved-form reply: the receive timestamp of the previous exchange)
 			c05Spy.mu.Lock()
 			samples := append([][4]time.Time{}, c05Spy.all...)
 			c05Spy.mu.Unlock()
+			spied = len(samples)
 			for _, q := range samples {
-				so := (q[1].Sub(q[0]) + q[2].Sub(q[3])) / 2
-				if k, ok := c05Identify(so, len(script)); ok && k >= 0 && !sent[k] {
-					w["accepted_datagram"], w["sample_offset"] = ev.Hex(sentBytes[k]), so.String()
-					r.Violation(name+"|wrong-value:offset computed from a datagram that must not be accepted|"+script[k].name, id, w)
+				a, b := q[1].Sub(q[0]), q[2].Sub(q[3])
+				kB, shiftB, ok := c05IdentifyHalf(b, len(script))
+				w["sample_receive_side"], w["sample_transmit_side"] = a.String(), b.String()
+				if !ok {
+					r.Violation(name+"|wrong-value:reported offset corresponds to none of the datagrams sent|"+scriptClass(script), id, w)
 					return
 				}
+				if kB >= 0 && !sent[kB] {
+					w["accepted_datagram"] = ev.Hex(sentBytes[kB])
+					r.Violation(name+"|wrong-value:offset computed from a datagram that must not be accepted|"+script[kB].name, id, w)
+					return
+				}
+				near := func(x, y time.Duration) bool { d := x - y; return d > -20*time.Second && d < 20*time.Second }
+				switch {
+				case near(a, shiftB):
+				case near(a, *prevShift):
+					r.Class(name + ":interleaved-form reply combined with the previous exchange")
+				default:
+					w["previous_accepted_tag"] = prevShift.String()
+					r.Violation(name+"|wrong-value:timestamps combined that belong neither to one datagram nor to it and the exchange accepted before|"+scriptClass(script), id, w)
+					return
+				}
+				*prevShift = shiftB
 			}
 		}
 		if err != nil {
@@ -440,25 +482,20 @@ func c05Leg(r *ev.Run, name string, p *c05Peer, muts []c05Mut, measure func(ctx 
 			}
 			return
 		}
-		if c05Spy != nil { // samples accepted on the way, whatever the call finally returned
-			c05Spy.mu.Lock()
-			samples := append([][4]time.Time{}, c05Spy.all...)
-			c05Spy.mu.Unlock()
-			for _, q := range samples {
-				so := (q[1].Sub(q[0]) + q[2].Sub(q[3])) / 2
-				if k, ok := c05Identify(so, len(script)); ok && k >= 0 && !sent[k] {
-					w["accepted_datagram"], w["sample_offset"] = ev.Hex(sentBytes[k]), so.String()
-					r.Violation(name+"|wrong-value:offset computed from a datagram that must not be accepted|"+script[k].name, id, w)
-					return
-				}
-			}
-		}
 		if ts.IsZero() {
 			// success without a receive timestamp: no datagram stands behind the reported offset
 			r.Violation(name+"|wrong-value:success reported although no datagram was accepted|"+scriptClass(script), id, w)
 			return
 		}
 		k, ok := c05Identify(off, len(script))
+		if spied > 0 {
+			// the samples were attributed one by one above; the value returned is the last one's
+			// (the datagram named by its transmit side)
+			c05Spy.mu.Lock()
+			q := c05Spy.all[len(c05Spy.all)-1]
+			c05Spy.mu.Unlock()
+			k, _, ok = c05IdentifyHalf(q[2].Sub(q[3]), len(script))
+		}
 		switch {
 		case !ok:
 			r.Violation(name+"|wrong-value:reported offset corresponds to none of the datagrams sent|"+scriptClass(script), id, w)
